@@ -954,7 +954,7 @@ func init() { addRules("C06", runC06ClonePerConsumer); addRules("C09", runC06Clo
 
 func runC06ClonePerConsumer(c *Ctx) {
 	p := c.P
-	c.Rule("R30", "PROV", "every mutating consumer that does not get the original gets a copy of its own: where a fan-out hands a payload to consumers in a loop and that payload is the result of a copying call, the call is made inside the loop (once per consumer) – a copy taken before the loop is shared by all of them, and with three or more mutating consumers one pipeline's processor sees the changes of another's", 4)
+	c.Rule("R30", "PROV", "every mutating consumer that does not get the original gets a copy of its own: where a fan-out hands a payload to consumers in a loop and that payload is the result of a copying call, the call is made inside the loop (once per consumer) – a copy taken before the loop is shared by all of them, and with three or more mutating consumers one pipeline's processor sees the changes of another's", 1)
 	pk := p.Pkg("internal/fanoutconsumer")
 	if pk == nil {
 		c.Anchor("internal/fanoutconsumer")
